@@ -22,6 +22,30 @@ def _evalstr(tr, n, obj, args, argnodes):
     return 'eval_tok(%s, %s, %s)' % (_addr(tr.expr(argnodes[0])), _addr(tr.expr(argnodes[1])), _addr(tr.expr(argnodes[2])))
 
 
+def _lits(n, acc):
+    if isinstance(n, dict):
+        if n.get('kind') == 'StringLiteral':
+            acc.append(n.get('value'))
+        for c in n.get('inner', []):
+            _lits(c, acc)
+    return acc
+
+
+def _lookup(tr, n, obj, args, argnodes):
+    """lookupNamedBuildParameter(decl, startTok, "<literal>", storage)"""
+    lits = _lits(argnodes[2], [])
+    if len(lits) != 1:
+        raise Exception('lookupNamedBuildParameter: the name is expected to be a string literal')
+    return 'lookup_named(%s, %s, %s, %s, %s)' % (obj, tr.expr(argnodes[0]), _addr(tr.expr(argnodes[1])), lits[0], _addr(tr.expr(argnodes[3])))
+
+
+def _eqword(tr, n, obj, args, argnodes):
+    lits = _lits({'inner': argnodes}, [])
+    if len(lits) != 1:
+        raise Exception('comparison of a parameter value with something that is not a string literal')
+    return 'ref_is_word(%s, %s)' % (obj if not obj.startswith('&') else '*' + obj, lits[0])
+
+
 def _find(tr, n, obj, args, argnodes):
     return 'find_node(%s, %s, %s)' % (obj, tr.expr(argnodes[0]), tr.expr(argnodes[1]))
 
@@ -32,26 +56,30 @@ INK = ' && '.join('((%d < inputTokens.len) ==> g_c_in.buf[%d] == (struct Node *)
 UNIT = {
     'name': 'ninja_builddecl',
     'source': 'lib/Ninja/ManifestLoader.cpp',
-    'dumps': ['ManifestLoaderImpl', 'ninja::Token'],
+    'dumps': ['ManifestLoaderImpl', 'ninja::Token', 'Command::DepsStyleKind'],
     'types': {'StringRef': 'strref', 'std::string': 'pstr', 'string': 'pstr', 'basic_string<char>': 'pstr', 'BuildResult': 'void *', 'ParseActions::BuildResult': 'void *', 'RuleResult': 'void *', 'ParseActions::RuleResult': 'void *', 'PoolResult': 'void *', 'ParseActions::PoolResult': 'void *'},
     'type_patterns': [(r'(llvm::)?SmallString<\d+>', 'pstr'), (r'(llvm::)?SmallVectorImpl<char>', 'pstr'), (r'(llvm::)?ArrayRef<(ninja::)?Token>', 'struct tokarr'), (r'(llvm::)?SmallVector<(ninja::)?Node \*, \d+>', 'struct nodevec'),
-                      (r'(llvm::)?ArrayRef<(ninja::)?Node \*>', 'struct nodevec'), (r'(llvm::)?SmallVectorTemplateCommon<(ninja::)?Node \*.*>', 'struct nodevec'), (r'(llvm::)?SmallVectorImpl<(ninja::)?Node \*>', 'struct nodevec'), (r'(llvm::)?StringMap(Const)?Iterator<.*Rule.*>', 'struct ruleiter'), (r'(llvm::)?iterator_facade_base<StringMap.*Rule.*', 'struct ruleiter'), (r'(llvm::)?StringMapIterBase<.*Rule.*', 'struct ruleiter'), (r'(llvm::)?StringMapEntry<.*Rule \*>', 'struct ruleiter'),
+                      (r'(llvm::)?ArrayRef<(ninja::)?Node \*>', 'struct nodevec'), (r'(llvm::)?SmallVectorTemplateCommon<(ninja::)?Node \*.*>', 'struct nodevec'), (r'(llvm::)?SmallVectorImpl<(ninja::)?Node \*>', 'struct nodevec'), (r'(llvm::)?StringMap(Const)?Iterator<.*Rule.*>', 'struct ruleiter'), (r'(llvm::)?iterator_facade_base<StringMap.*Rule.*', 'struct ruleiter'), (r'(llvm::)?StringMapIterBase<.*Rule.*', 'struct ruleiter'), (r'(llvm::)?StringMapEntry<.*Rule \*>', 'struct ruleiter'), (r'(llvm::)?StringMap<.*Pool \*>::(const_)?iterator', 'struct pooliter'), (r'(llvm::)?StringMap(Const)?Iterator<.*Pool.*>', 'struct pooliter'), (r'(llvm::)?iterator_facade_base<StringMap.*Pool.*', 'struct pooliter'), (r'(llvm::)?StringMapIterBase<.*Pool.*', 'struct pooliter'), (r'(llvm::)?StringMapEntry<.*Pool \*>', 'struct pooliter'),
                       (r'(llvm::)?StringMap<(std::)?(basic_string<char>|string).*>', 'struct pmap'), (r'(llbuild::)?(ninja::)?Scope', 'struct Scope'), (r'(llbuild::)?(ninja::)?Manifest', 'struct Manifest'), (r'(llbuild::)?(ninja::)?Rule', 'struct Rule'), (r'(llbuild::)?(ninja::)?Node', 'struct Node'),
                       (r'(llbuild::)?(ninja::)?Command', 'struct Command')],
-    'by_value': ['strref', 'pstr', 'struct tokarr', 'struct nodevec', 'struct ruleiter'],
-    'predefined_structs': ['pmap', 'Scope', 'Manifest', 'Rule', 'Node', 'Command', 'nodevec', 'ruleiter', 'tokarr'],
+    'by_value': ['strref', 'pstr', 'struct tokarr', 'struct nodevec', 'struct ruleiter', 'struct pooliter'],
+    'predefined_structs': ['pooliter', 'pmap', 'Scope', 'Manifest', 'Rule', 'Node', 'Command', 'nodevec', 'ruleiter', 'tokarr'],
     'class_alias': {'ManifestLoaderImpl': 'ManifestLoader::ManifestLoaderImpl'},
-    'need_fields': {'ManifestLoader::ManifestLoaderImpl': ['workingDirectory', 'manifest']},
-    'no_translate': ['isValidParameterName', 'getParameters', 'insertBinding', 'error', 'getCurrentScope', 'evalString', 'findOrCreateNode', 'getPhonyRule', 'getRules', 'getCommands', 'getAllocator'],
+    'need_fields': {'ManifestLoader::ManifestLoaderImpl': ['workingDirectory', 'manifest', 'buildCommand', 'buildDescription']},
+    'need_enums': ['Command::DepsStyleKind'],
+    'no_translate': ['lookupNamedBuildParameter', 'normalize_path', 'getPools', 'setCommandString', 'setDescription', 'setDepsStyle', 'setDepsFile', 'setRspFile', 'setRspFileContent', 'setGeneratorFlag', 'setRestatFlag', 'setExecutionPool', 'isValidParameterName', 'getParameters', 'insertBinding', 'error', 'getCurrentScope', 'evalString', 'findOrCreateNode', 'getPhonyRule', 'getRules', 'getCommands', 'getAllocator'],
     'calls': {
         'm:ManifestLoader::ManifestLoaderImpl::error': _err, 'm:*::error': _err, 'm:ManifestLoader::ManifestLoaderImpl::getCurrentScope': 'cur_scope', 'm:ManifestLoader::ManifestLoaderImpl::evalString': _evalstr,
         'm:Scope::getRules': 'scope_rules', 'm:Manifest::findOrCreateNode': _find, 'm:Manifest::getPhonyRule': 'phony_rule', 'm:Manifest::getCommands': 'manifest_commands', 'm:Manifest::getAllocator': '0',
-        'm:Command::getParameters': 'decl_params', 'm:Rule::getParameters': 'decl_params', 'fn:isValidParameterName': 'valid_param_name', 'm:Rule::isValidParameterName': 'valid_param_name', 'm:Scope::insertBinding': 'scope_insert',
+        'm:ManifestLoader::ManifestLoaderImpl::lookupNamedBuildParameter': _lookup, 'o:==:StringRef': _eqword, 'o:==:@strref': _eqword, 'fn:operator==': _eqword, 'm:@pstr::clear': 'pstr_clear', 'm:Manifest::getPools': 'manifest_pools',
+        'fn:normalize_path': 'normalize_rsp', 'm:Manifest::normalize_path': 'normalize_rsp', 'm:Command::setCommandString': 'set_command', 'm:Command::setDescription': 'set_description', 'm:Command::setDepsStyle': 'set_depsstyle',
+        'm:Command::setDepsFile': 'set_depfile', 'm:Command::setRspFile': 'set_rspfile', 'm:Command::setRspFileContent': 'set_rspcontent', 'm:Command::setGeneratorFlag': 'set_generator', 'm:Command::setRestatFlag': 'set_restat', 'm:Command::setExecutionPool': 'set_pool',
+        'm:@strref::empty': '($o->len == 0)', 'm:StringRef::empty': '($o->len == 0)', 'm:Command::getParameters': 'decl_params', 'm:Rule::getParameters': 'decl_params', 'fn:isValidParameterName': 'valid_param_name', 'm:Rule::isValidParameterName': 'valid_param_name', 'm:Scope::insertBinding': 'scope_insert',
         'm:@pstr::str': 'pstr_to_ref', 'range:@struct tokarr': ('tokarr_size', 'tokarr_at'), 'm:@struct nodevec::push_back': ('nodevec_push', 'v'), 'm:@pstr::empty': 'pstr_is_empty', 'new:@struct Command': 'command_new',
     },
     'call_patterns': [(r'o:\[\]:StringMap<.*(string|basic_string).*>', ('pmap_slot', 'v')), (r'o:=:(std::)?(basic_string<char>|string)', 'slot_assign($o, $0)'), (r'o:=:@pstr', 'slot_assign($o, $0)'), (r'm:SmallString<\d+>::str', 'pstr_to_ref'), (r'm:StringRef::operator .*', 'ref_id'), (r'm:@strref::operator .*', 'ref_id'), (r'c:(basic_string<char>|string|std::string)\(.*\)', '$0'),
                       (r'm:SmallString<\d+>::operator StringRef', 'pstr_to_ref'), (r'm:@pstr::operator StringRef', 'pstr_to_ref'), (r'c:StringRef\(const char \*, (size_t|unsigned long)\)', 'strref_make'), (r'c:SmallString<\d+>/0', 'pstr_none'), (r'c:SmallString<\d+>\(\)', 'pstr_none'), (r'c:SmallVector<.*Node \*, \d+>/0', 'nodevec_new'),
-                      (r'c:SmallVector<.*Node \*, \d+>\(\)', 'nodevec_new'), (r'm:StringMap<.*Rule.*>::find', ('rules_find', 'v')), (r'm:StringMap<.*Rule.*>::end', 'rules_end'), (r'c:StringMap(Const)?Iterator<.*', '$0'),
+                      (r'c:SmallVector<.*Node \*, \d+>\(\)', 'nodevec_new'), (r'm:StringMap<.*Pool.*>::find', ('pools_find', 'v')), (r'm:StringMap<.*Pool.*>::end', 'pools_end'), (r'm:StringMap<.*Rule.*>::find', ('rules_find', 'v')), (r'm:StringMap<.*Rule.*>::end', 'rules_end'), (r'c:StringMap(Const)?Iterator<.*', '$0'),
                       (r'o:==:StringMapIterBase<.*', '(!$o->hit)'), (r'o:->:StringMapIterBase<.*', '($o)'), (r'o:==:iterator_facade_base<StringMap.*', '(!$o->hit)'), (r'o:==:StringMap(Const)?Iterator.*', '(!$o->hit)'), (r'o:->:iterator_facade_base<StringMap.*', '($o)'), (r'o:->:StringMap(Const)?Iterator.*', '($o)'),
                       (r'c:(llvm::)?ArrayRef<.*Node \*>\(.*\)', '$0'), (r'm:.*vector<.*Command \*.*>::push_back', ('commands_push', 'v'))],
     'prelude': '#include "models/base.h"\n#include "models/vec.h"\n#include "models/ninja_builddecl.h"\n',
@@ -109,5 +137,27 @@ UNIT = {
             'assigns': ['g_evals', 'g_eval_scope_ok', 'g_inserts', 'g_insert_scope', 'g_insert_name', 'g_insert_val'],
             'ensures': [('P:C17,P:C19', 'g_evals == 1 && g_eval_scope_ok == (const void *)&g_scope_marker'),
                         ('P:C17', 'g_inserts == 1 && g_insert_scope == (const void *)&g_scope_marker && g_insert_name == nameTok->start && g_insert_val == (const char *)valueTok')]},
+        # the attributes of a build statement: each is the value of the build parameter of THAT name (looked up for this statement), stored in its own attribute
+        'ManifestLoaderImpl::actOnEndBuildDecl': {
+            'requires': ['__CPROVER_is_fresh(self, sizeof(*self))', '__CPROVER_is_fresh(self->manifest, 1)', '__CPROVER_is_fresh(startTok, sizeof(*startTok))', '__CPROVER_is_fresh(abstractDecl, 1)',
+                         'g_nlookups == 0 && g_errors == 0 && g_sets == 0', ' && '.join('g_plookups[%d] == 0' % i for i in range(1, 10)), 'g_deps_word >= 0 && g_deps_word <= 3 && (g_deps_word == 0) == (g_pempty[PN_deps] != 0)',
+                         'g_set_command == 0 && g_set_description == 0 && g_set_depfile == 0 && g_set_rspfile == 0 && g_set_rspcontent == 0 && g_set_pool == 0 && g_set_depsstyle == -1 && g_set_generator == -1 && g_set_restat == -1'],
+            'assigns': ['g_nlookups', '__CPROVER_object_whole(g_plookups)', 'g_lookup_decl_ok', 'g_lookup_tok_ok', 'g_errors', 'g_sets', 'g_set_command', 'g_set_description', 'g_set_depfile', 'g_set_rspfile', 'g_set_rspcontent', 'g_set_pool',
+                        'g_set_depsstyle', 'g_set_generator', 'g_set_restat', 'self->buildCommand', 'self->buildDescription'],
+            'ensures': [
+                ('P:C17', 'g_set_command == &g_pval[PN_command] && g_set_description == &g_pval[PN_description]'),
+                ('P:C17', 'g_lookup_decl_ok == (const void *)abstractDecl && g_lookup_tok_ok == (const void *)startTok'),
+                # deps style: "" with a depfile and "gcc" mean GCC, "msvc" MSVC, "" without depfile none; anything else is reported
+                ('P:C17', 'g_set_depsstyle == (g_deps_word == 0 ? (g_pempty[PN_depfile] ? Command_DepsStyleKind_None : Command_DepsStyleKind_GCC) : g_deps_word == 1 ? Command_DepsStyleKind_GCC : g_deps_word == 2 ? Command_DepsStyleKind_MSVC : Command_DepsStyleKind_None)'),
+                # the depfile is stored exactly when there is one and the style is GCC
+                ('P:C17', '(g_set_depfile != 0) == (!g_pempty[PN_depfile] && g_set_depsstyle == Command_DepsStyleKind_GCC) && (g_set_depfile == 0 || g_set_depfile == &g_pval[PN_depfile])'),
+                ('P:C17', '(g_set_generator == (g_pempty[PN_generator] ? 0 : 1)) && (g_set_restat == (g_pempty[PN_restat] ? 0 : 1))'),
+                ('P:C17', '(g_set_pool != 0) == (!g_pempty[PN_pool] && g_pool_known && g_pool_hit != 0) && (g_set_pool == 0 || g_set_pool == g_pool_hit)'),
+                # response file: its (normalised) name and, only then, its content
+                ('P:C17', '(g_set_rspfile != 0) == (!g_pempty[PN_rspfile] && g_norm_ok) && (g_set_rspfile == 0 || g_set_rspfile == &g_pval[PN_rspfile])'),
+                ('P:C17', '(g_set_rspcontent != 0) == (g_set_rspfile != 0) && (g_set_rspcontent == 0 || g_set_rspcontent == &g_pval[PN_rspfile_content])'),
+                # diagnostics: an invalid deps word, a depfile with a non-GCC style, GCC style without depfile, an unknown pool
+                ('P:C17', 'g_errors == (g_deps_word == 3 ? 1u : 0u) + ((!g_pempty[PN_depfile] && g_set_depsstyle != Command_DepsStyleKind_GCC) ? 1u : 0u) + ((g_pempty[PN_depfile] && g_set_depsstyle == Command_DepsStyleKind_GCC) ? 1u : 0u) + ((!g_pempty[PN_pool] && !g_pool_known) ? 1u : 0u)'),
+            ]},
     },
 }
